@@ -275,3 +275,57 @@ func VerifC15CloseRace(hlen int) {
 	vrf.Cover("close-race-done")
 	vrf.CoverIf("close-race-with-busy-hub", vrf.Bool("gate_slowMonitor"))
 }
+
+type vrfCountingMonitor struct{ ids []string }
+
+func (l *vrfCountingMonitor) Receive(m event.MessageMetadata) error {
+	l.ids = append(l.ids, m.ID)
+	return nil
+}
+func (l *vrfCountingMonitor) Delete(mailbox string, id string) error { return nil }
+
+func vrfID3(i int) string {
+	return string([]byte{byte('0' + i/100), byte('0' + (i/10)%10), byte('0' + i%10)})
+}
+
+// VerifC15Slow: a WebSocket monitor whose client has stopped reading (its 100-slot queue fills up)
+// must not block the hub: n > 100 events are dispatched, the hub keeps serving (Sync returns), and
+// a second monitor receives every one of them in order. What happens to the slow monitor (it is
+// dropped) is not asserted beyond that.
+func VerifC15Slow(n int) {
+	hub := msghub.New(2, extension.NewHost())
+	ctx := &vrfNeverCtx{done: make(chan struct{})}
+	go hub.Start(ctx)
+	slow := newMsgListenerV2(hub, "") // nobody reads slow.c
+	fast := &vrfCountingMonitor{}
+	hub.AddListener(fast)
+	hub.Sync()
+	done := make(chan bool, 1)
+	go func() {
+		for i := 1; i <= n; i++ {
+			hub.Dispatch(event.MessageMetadata{Mailbox: "a", ID: vrfID3(i)})
+		}
+		hub.Sync()
+		done <- true
+	}()
+	select {
+	case <-done:
+	case <-time.After(3 * time.Second):
+		vrf.Assert("slow-monitor-never-blocks-the-hub", false)
+		close(ctx.done)
+		return
+	}
+	vrf.Assert("other-monitor-gets-every-event", len(fast.ids) == n)
+	inOrder := len(fast.ids) == n
+	if inOrder {
+		for i := 0; i < n; i++ {
+			if fast.ids[i] != vrfID3(i+1) {
+				inOrder = false
+			}
+		}
+	}
+	vrf.Assert("other-monitor-events-in-order", inOrder)
+	vrf.Assert("slow-monitor-queue-bounded", len(slow.c) <= 100)
+	close(ctx.done)
+	vrf.Cover("slow-monitor-done")
+}
